@@ -2,7 +2,7 @@ import TinsModel.Tcp.Spec
 import TinsModel.Basic.Seq32Lemmas
 import TinsModel.Tcp.LemmasRefine
 import TinsModel.Tcp.LemmasLegacy
-import TinsModel.Tcp.Flow
+import TinsModel.Follower.LemmasFlow
 /- Property C06 — theorems (statements only here; helper lemmas live in TinsModel/Tcp/Lemmas*.lean).
 
    Conventions: an arrival history is a `List SegD` with the LATEST arrival first (so every suffix is an
@@ -177,17 +177,32 @@ theorem process_payload_true_iff_grew (t : Tracker) (seq : Nat) (payload : Bytes
       t.payload.length < (processPayload t seq payload).1.payload.length := by
   rw [processPayload_flag]; simp
 
-/-- **Flow::process_packet**: fed with the next arrival `g` of a valid history, the flow's tracker moves as the
-    tracker model, the data callback fires iff the delivered prefix grew, and the out-of-order callback fires
-    iff the segment lies entirely below the delivery point or starts above it. -/
+/-- **Flow::process_packet, over the real state machine** (the C07 model `SF.Flow` of `Flow`: `update_state`, the ACK
+    tracker, then the data path; TinsModel/Follower/Model.lean).  `process_packet` runs `update_state` first, and the tracker that
+    meets the payload is the one `update_state` leaves (`flow_update_state_tracker` below says exactly what that is).  Let that
+    tracker be the tracker model after the arrivals `h`, let the flow not ignore data and have no recovery handler bound, and let
+    the packet carry the next arrival `g` of a valid history, its first payload byte (`Pkt.dataSeq`: one past the sequence number
+    of a SYN segment, KF-C07-3) at the sequence number of `g`.  Then — IN EVERY STATE of the flow, FIN_SENT and RST_SENT included:
+    the data path does not look at the state — the tracker moves as the tracker model, the data callback fires iff the delivered
+    prefix grew, the out-of-order callback fires (with the payload's sequence number and bytes) iff the segment lies entirely below
+    the delivery point or starts above it, and the state is the one `update_state` computed. -/
 theorem flow_callbacks (s : Bytes) (isn : Nat) (g : SegD) (h : List SegD)
-    (hs : s.length < 2147483648) (hisn : isn < 4294967296) (hh : HistOK s (g :: h)) :
+    (hs : s.length < 2147483648) (hisn : isn < 4294967296) (hh : HistOK s (g :: h))
+    (f : SF.Flow) (p : SF.Pkt) (hig : f.ignoreData = false) (hrec : f.recEnd = none)
+    (htr : (f.updateState p).tr = runModel isn h)
+    (hpl : p.payload = some g.data) (hseq : p.dataSeq = seqOf isn g.off) :
     let k := frontier (h.map SegD.seg) s.length
-    let res := ({ tracker := runModel isn h } : Flow).processPacket (seqOf isn g.off) (some g.data)
-    res.1.tracker = runModel isn (g :: h) ∧
-    (res.2.data = true ↔ k < frontier ((g :: h).map SegD.seg) s.length) ∧
-    (res.2.outOfOrder = true ↔ (g.off + (g.data.length : Int) < (k : Int) ∨ (k : Int) < g.off)) := by
+    let res := f.processPacket p
+    res.1.tr = runModel isn (g :: h) ∧
+    (res.2.2 = true ↔ k < frontier ((g :: h).map SegD.seg) s.length) ∧
+    (res.2.1 = if (g.off + (g.data.length : Int) < (k : Int) ∨ (k : Int) < g.off) then some (p.dataSeq, g.data) else none) ∧
+    res.1.state = (f.updateState p).state := by
   intro k res
+  obtain ⟨q1, _, _, _, q5, q6, _⟩ := SF.pre_fields f p
+  have hi' : (f.pre p).ignoreData = false := q6.trans hig
+  have hr' : (f.pre p).recEnd = none := (SF.pre_recEnd f p).trans hrec
+  have htr' : (f.pre p).tr = runModel isn h := q5.trans htr
+  have hres : res = _ := SF.processPacket_some f p g.data hi' hr' hpl
   have hp0 := delivered_is_prefix s isn h hs hisn hh.2
   have hp1 := delivered_is_prefix s isn (g :: h) hs hisn hh
   have hsim := run_sim hs hisn hh.2
@@ -199,25 +214,78 @@ theorem flow_callbacks (s : Bytes) (isn : Nat) (g : SegD) (h : List SegD)
   have hkN : k ≤ s.length := hle0
   have hc1 := chunkEnd_compare (isn := isn) (n := g.data.length) hs hkN hwin hin
   have hc2 := start_compare (isn := isn) (n := g.data.length) hs hkN hwin hin
-  have hseq : (runModel isn h).seq = W isn k := by rw [hsim.seq, ← hf]
-  refine ⟨rfl, ?_, ?_⟩
+  have hseqT : (runModel isn h).seq = W isn k := by rw [hsim.seq, ← hf]
+  rw [hres, htr', hseq]
+  refine ⟨rfl, ?_, ?_, q1⟩
   · show (processPayload (runModel isn h) (seqOf isn g.off) g.data).2 = true ↔ _
     rw [process_payload_true_iff_grew]
     show (runModel isn h).payload.length < (runModel isn (g :: h)).payload.length ↔ _
     rw [hp0, hp1, List.length_take, List.length_take]
     show min k s.length < min (frontier ((g :: h).map SegD.seg) s.length) s.length ↔ _
     omega
-  · show (decide (seqCompare (wrap32 (seqOf isn g.off + g.data.length)) (runModel isn h).seq < 0)
-        || decide (seqCompare (seqOf isn g.off) (runModel isn h).seq > 0)) = true ↔ _
-    rw [hseq, hc1, hc2]
-    simp only [Bool.or_eq_true, decide_eq_true_eq]
-    constructor
-    · rintro (h1 | h1)
-      · left; revert h1; split <;> (try split) <;> intro h1 <;> first | omega | (exact absurd h1 (by decide))
-      · right; revert h1; split <;> (try split) <;> intro h1 <;> first | omega | (exact absurd h1 (by decide))
-    · rintro (h1 | h1)
-      · left; rw [if_neg (by omega), if_pos h1]; decide
-      · right; rw [if_neg (by omega), if_neg (by omega)]; decide
+  · show (if seqCompare (wrap32 (seqOf isn g.off + g.data.length)) (runModel isn h).seq < 0 ∨
+          seqCompare (seqOf isn g.off) (runModel isn h).seq > 0 then some (seqOf isn g.off, g.data) else none) = _
+    rw [hseqT, hc1, hc2]
+    have e : ((if g.off + (g.data.length : Int) = (k : Int) then (0 : Int)
+          else if g.off + (g.data.length : Int) < (k : Int) then -1 else 1) < 0 ∨
+        (if g.off = (k : Int) then (0 : Int) else if g.off < (k : Int) then -1 else 1) > 0) ↔
+        (g.off + (g.data.length : Int) < (k : Int) ∨ (k : Int) < g.off) := by
+      constructor
+      · rintro (h1 | h1)
+        · left; revert h1; split <;> (try split) <;> intro h1 <;> first | omega | (exact absurd h1 (by decide))
+        · right; revert h1; split <;> (try split) <;> intro h1 <;> first | omega | (exact absurd h1 (by decide))
+      · rintro (h1 | h1)
+        · left; rw [if_neg (by omega), if_pos h1]; decide
+        · right; rw [if_neg (by omega), if_neg (by omega)]; decide
+    by_cases hc : (g.off + (g.data.length : Int) < (k : Int) ∨ (k : Int) < g.off)
+    · rw [if_pos (e.mpr hc), if_pos hc]
+    · rw [if_neg (fun x => hc (e.mp x)), if_neg hc]
+
+/-- **What `update_state` does to the reassembly state**: nothing — except in the one transition UNKNOWN -> SYN_SENT (a segment
+    with SYN and neither RST nor FIN reaching a flow that has not seen SYN, FIN or RST yet), where the expected sequence number
+    becomes the segment's sequence number + 1, whatever it was before, buffered chunks and delivered payload staying as they are. -/
+theorem flow_update_state_tracker (f : SF.Flow) (p : SF.Pkt) :
+    (f.updateState p).tr =
+      if f.state = .unknown ∧ p.syn = true ∧ p.rst = false ∧ p.fin = false then { f.tr with seq := wrap32 (p.seq + 1) }
+      else f.tr := by
+  split
+  · next hc => exact SF.updateState_tr_syn f p hc.1 hc.2.1 hc.2.2.1 hc.2.2.2
+  · next hc =>
+    apply SF.updateState_tr
+    by_cases h1 : f.state = .unknown
+    · by_cases h2 : p.syn = true
+      · by_cases h3 : p.rst = true
+        · exact Or.inr (Or.inr (Or.inl h3))
+        · by_cases h4 : p.fin = true
+          · exact Or.inr (Or.inr (Or.inr h4))
+          · exact absurd ⟨h1, h2, by simpa using h3, by simpa using h4⟩ hc
+      · exact Or.inr (Or.inl (by simpa using h2))
+    · exact Or.inl h1
+
+/-- **The SYN that opens a flow**: on a flow that has seen nothing yet the tracker `update_state` leaves is the tracker model
+    of a stream whose initial sequence number is the SYN's sequence number + 1 with no arrival so far, and the payload of
+    that very segment (TCP Fast Open) is offset 0 of it — so `flow_callbacks` applies to it with `h = []`, `g.off = 0`. -/
+theorem flow_syn_opens (dst dport seq0 : Nat) (v6 : Bool) (p : SF.Pkt) (h1 : p.syn = true) (h2 : p.rst = false)
+    (h3 : p.fin = false) :
+    ((SF.Flow.init v6 dst dport seq0).updateState p).tr = runModel (wrap32 (p.seq + 1)) [] ∧
+    p.dataSeq = seqOf (wrap32 (p.seq + 1)) 0 ∧ ((SF.Flow.init v6 dst dport seq0).updateState p).state = .synSent := by
+  refine ⟨?_, ?_, ?_⟩
+  · rw [SF.updateState_tr_syn _ p rfl h1 h2 h3]; rfl
+  · unfold SF.Pkt.dataSeq seqOf wrap32
+    simp only [h1, if_true]
+    omega
+  · unfold SF.Flow.updateState
+    simp [h1, h2, h3, SF.Flow.init]
+
+/-- a flow told to ignore data (`ignore_data_packets`) leaves the reassembly to `update_state` alone and fires no callback -/
+theorem flow_ignores_data (f : SF.Flow) (p : SF.Pkt) (hig : f.ignoreData = true) :
+    (f.processPacket p).1.tr = (f.updateState p).tr ∧ (f.processPacket p).2 = (none, false) := by
+  obtain ⟨_, _, _, _, q5, q6, _⟩ := SF.pre_fields f p
+  have : (f.pre p).ignoreData = true := q6.trans hig
+  have e : f.processPacket p = (f.pre p, none, false) := by
+    unfold SF.Flow.processPacket; simp [this]
+  rw [e]
+  exact ⟨q5, rfl⟩
 
 /-- **Legacy follower, same delivery guarantee.** One direction of `TCPStream` (as driven by
     `TCPStreamFollower` after the handshake) run over a valid arrival history satisfies the same spec as the
@@ -288,10 +356,23 @@ example : (runLegacy 4294967293 exHist).payload = exStream ∧ (runLegacy 429496
   decide
 -- the second arrival (stale start, ends at 2 > 0) makes the data callback fire and is not out of order;
 -- a retransmission of it afterwards fires nothing (this is the behaviour established by the fix)
-example : (({ tracker := runModel 4294967293 (exHist.drop 2) } : Flow).processPacket (seqOf 4294967293 (-2)) (some [9, 9, 1, 2])).2
-    = ⟨false, true⟩ := by decide
-example : (({ tracker := runModel 4294967293 (exHist.drop 1) } : Flow).processPacket (seqOf 4294967293 (-2)) (some [9, 9, 1, 2])).2
-    = ⟨false, false⟩ := by decide
+def exPkt (flags seq : Nat) (d : Bytes) : SF.Pkt :=
+  { v6 := false, src := 1, sport := 4321, dst := 2, dport := 80, flags := flags, seq := seq, ack := 0, payload := some d,
+    mss := none, sackOk := false, ts := 0 }
+def exFlow (st : SF.FState) (t : Tracker) : SF.Flow := { SF.Flow.init false 2 80 0 with state := st, tr := t }
+example : ((exFlow .established (runModel 4294967293 (exHist.drop 2))).processPacket (exPkt 16 (seqOf 4294967293 (-2)) [9, 9, 1, 2])).2
+    = (none, true) := by decide
+example : ((exFlow .established (runModel 4294967293 (exHist.drop 1))).processPacket (exPkt 16 (seqOf 4294967293 (-2)) [9, 9, 1, 2])).2
+    = (none, false) := by decide
+-- the same arrival carried by a FIN segment reaching a flow in RST_SENT: the data path is the same
+example : ((exFlow .rstSent (runModel 4294967293 (exHist.drop 2))).processPacket (exPkt 17 (seqOf 4294967293 (-2)) [9, 9, 1, 2])).2
+    = (none, true) := by decide
+-- a SYN carrying [1,2] opens a fresh flow created with another sequence number: expected 4294967293, then 4294967295
+example : ((SF.Flow.init false 2 80 77).processPacket (exPkt 2 4294967292 [1, 2])).1.tr.seq = 4294967295 ∧
+    ((SF.Flow.init false 2 80 77).processPacket (exPkt 2 4294967292 [1, 2])).2 = (none, true) := by decide
+-- the hypotheses of `flow_callbacks` on that packet (`h = []`, `g = ⟨0, [1,2]⟩`)
+example : HistOK exStream [⟨0, [1, 2]⟩] ∧ ((SF.Flow.init false 2 80 77).updateState (exPkt 2 4294967292 [1, 2])).tr = runModel 4294967293 [] ∧
+    (exPkt 2 4294967292 [1, 2]).dataSeq = seqOf 4294967293 0 := by decide
 example : specOK exStream 4294967293 (exHist.map SegD.seg) (runModel 4294967293 exHist).obs = true :=
   tracker_refines_spec exStream 4294967293 exHist (by decide) (by decide) (by decide)
 -- `buffered_bytes_exact` on a history that is NOT a valid stream (conflicting data, advance_sequence)
